@@ -148,6 +148,10 @@ def run(pid, tier):
             rep.broken.append('alphabet %s: implementation reaches %d abstract states, specification %d' % (a, len(proj), r.distinct))
         os.unlink(w + '/x.ndjson')
     # an application whose error callback re-enters the library (takes the error out / empties the queue while it is announced)
+    rs = lib.tlc('MCStatusNested', 'MCStatusNested_S.cfg', timeout=900, xmx='8g')
+    rep.add_tlc('MCStatusNested_S', rs, 'model checking of ScpiStatusNested with a re-entering service-request handler (srqclr / srqpp): StbCoherent, QueueBounded, RiseAnnouncedS, SecondRiseS')
+    if rs.violations:
+        rep.broken.append('specification violates its own property %s in MCStatusNested_S' % rs.violations)
     r = lib.tlc('MCStatusNested', 'MCStatusNested_N.cfg', timeout=900, xmx='8g')
     rep.add_tlc('MCStatusNested_N', r, 'model checking of ScpiStatusNested (pushes drained by the error callback): StbCoherent, QueueBounded, Sticky, Latch, NestedSetsClassBit, SrqOnRise')
     if r.violations:
@@ -160,7 +164,7 @@ def run(pid, tier):
             for l in open(w + '/opsn.ndjson'):
                 f.write(' '.join(str(x) for x in json.loads(l)) + '\n')
         os.unlink(w + '/opsn.ndjson')
-        for cfgname in ('default', 'noinfo'):
+        for cfgname in (('default',) if tier == 'quick' else ('default', 'noinfo')):
             exen = exe if cfgname == 'default' else lib.build('drv_status', ['drv_status.c'], config='noinfo')
             d = lib.run_driver(exen, ['explore', w + '/opsn.txt', 2, 400000, w + '/n.raw'])
             if d['rc'] != 0:
@@ -168,7 +172,7 @@ def run(pid, tier):
                 continue
             info = json.loads(d['stdout'].decode().strip().splitlines()[-1])
             subprocess.run('LC_ALL=C sort -u %s/n.raw > %s/n.ndjson; rm %s/n.raw' % (w, w, w), shell=True, check=True)
-            rep.cov['driver_runs'].append(dict(alphabet='N (nested error callback)', build=cfgname, cap=2, impl_concrete_states=info['concrete_states'],
+            rep.cov['driver_runs'].append(dict(alphabet='N (re-entering error callback and service-request handler)', build=cfgname, cap=2, impl_concrete_states=info['concrete_states'],
                                                impl_transitions=info['transitions'], spec_states=r.distinct, complete=info['complete']))
             validate(rep, pid, w + '/n.ndjson', 'explore-N-' + cfgname)
             os.unlink(w + '/n.ndjson')
